@@ -23,6 +23,79 @@ def unhex(h):
     return [int(h[i:i + 2], 16) for i in range(0, len(h), 2)]
 
 
+def cbor_read(b, i=0):
+    """Minimal CBOR reader keeping map order: returns (value, next index); maps are lists of pairs tagged ("map", pairs)."""
+    ib = b[i]
+    major, info = ib >> 5, ib & 31
+    i += 1
+    if info < 24:
+        arg = info
+    else:
+        n = {24: 1, 25: 2, 26: 4, 27: 8}[info]
+        arg = int.from_bytes(b[i:i + n], "big")
+        i += n
+    if major == 0:
+        return arg, i
+    if major == 1:
+        return -1 - arg, i
+    if major == 2:
+        return ("bytes", bytes(b[i:i + arg])), i + arg
+    if major == 3:
+        return bytes(b[i:i + arg]).decode("utf-8"), i + arg
+    if major == 4:
+        out = []
+        for _ in range(arg):
+            v, i = cbor_read(b, i)
+            out.append(v)
+        return out, i
+    if major == 5:
+        out = []
+        for _ in range(arg):
+            k, i = cbor_read(b, i)
+            v, i = cbor_read(b, i)
+            out.append((k, v))
+        return ("map", out), i
+    raise ValueError("unsupported CBOR major type %d" % major)
+
+
+def cbor_write(v):
+    def head(major, arg):
+        if arg < 24:
+            return bytes([major << 5 | arg])
+        for info, n in ((24, 1), (25, 2), (26, 4), (27, 8)):
+            if arg < 1 << (8 * n):
+                return bytes([major << 5 | info]) + arg.to_bytes(n, "big")
+        raise ValueError("too large")
+    if isinstance(v, bool):
+        raise ValueError("bool")
+    if isinstance(v, int):
+        return head(0, v) if v >= 0 else head(1, -1 - v)
+    if isinstance(v, str):
+        e = v.encode("utf-8")
+        return head(3, len(e)) + e
+    if isinstance(v, list):
+        return head(4, len(v)) + b"".join(cbor_write(x) for x in v)
+    if isinstance(v, tuple) and v[0] == "bytes":
+        return head(2, len(v[1])) + v[1]
+    if isinstance(v, tuple) and v[0] == "map":
+        return head(5, len(v[1])) + b"".join(cbor_write(k) + cbor_write(x) for k, x in v[1])
+    raise ValueError("unsupported")
+
+
+def reorder(v, how):
+    """the same CBOR value with the entries of every map in another order"""
+    if isinstance(v, tuple) and v[0] == "map":
+        pairs = [(k, reorder(x, how)) for k, x in v[1]]
+        if how == "reverse":
+            pairs = pairs[::-1]
+        elif how == "canonical":
+            pairs = sorted(pairs, key=lambda kv: (len(cbor_write(kv[0])), cbor_write(kv[0])))
+        return ("map", pairs)
+    if isinstance(v, list):
+        return [reorder(x, how) for x in v]
+    return v
+
+
 def run(rng, tier, model_ok):
     V = unitlib.vocab()
     failures, cases, samples = [], [], []
@@ -96,6 +169,19 @@ def run(rng, tier, model_ok):
         cases.append((6, qcorr.encode_units(r["names"]), unhex(r["cbor"])))
         cases.append((7, unhex(r["cbor"]), [1] + qcorr.encode_units(r["names"])))
     samples.append({"unit": texts[-1], "cbor": crep[-1].get("cbor")})
+    # the same unit expressions with the entries of their maps in another order (the index stores them re-encoded in canonical CBOR
+    # order, other writers may use any order): what they decode to does not depend on it
+    perm = []
+    for t, r in zip(texts, crep):
+        if r.get("equal") is True and len(r.get("names", [])) >= 2 and len(perm) < (400 if tier == "quick" else 6000):
+            v, _ = cbor_read(bytes.fromhex(r["cbor"]))
+            for how in ("reverse", "canonical"):
+                perm.append((t, how, cbor_write(reorder(v, how)).hex(), r["names"]))
+    prep = vlib.run_impl(["C d " + h for _, _, h, _ in perm])
+    for (t, how, h, names), r in zip(perm, prep):
+        if r.get("names") != names:
+            failures.append({"input": t, "why": "the unit expression with its map entries in %s order decodes to %s instead of %s" % (how, r.get("names") or r, names), "cbor": h})
+    stats["reordered_maps"] = len(perm)
     # ids: every id constant of the table decodes to a unit with that id (through serde)
     ids = sorted({u["id"] for u in qcorr.tables()["units"].values()})
     drep = vlib.run_impl(["C d " + bytes([0xA1, 0x65]).hex() + "names".encode().hex() + "a1a167" + "Derived".encode().hex() + "1a%08x" % i + "a265" + "power".encode().hex() + "0166" + "prefix".encode().hex() + "00" for i in ids])
